@@ -127,12 +127,16 @@ class Rotate(Domain):
         return Rotate(self.domain.boundary, self.rotation_fn, self.rotate_around)
 
     def _contains(self, points, params=Points.empty()):
-        translate_values = self.rotate_around(points.join(params)).reshape(
-            -1, self.space.dim
-        )
-        rotation_matrix = self.rotation_fn(points.join(params)).reshape(
+        all_points = points.join(params)
+        translate_values = self.rotate_around(all_points).reshape(-1, self.space.dim)
+        rotation_matrix = self.rotation_fn(all_points).reshape(
             -1, self.space.dim, self.space.dim
         )
+        # every variable that is not a coordinate of this domain (e.g. the variables
+        # of the other factor of a product) is a parameter for the inner domain
+        other_variables = [v for v in all_points.space.keys() if v not in self.space]
+        if len(other_variables) > 0:
+            params = all_points[:, other_variables]
         shifted_points = points[:, list(self.space.keys())].as_tensor - translate_values
         # here apply inverse rotation -> solve: Matrix * x = shifted_points
         rotated_points = torch.linalg.solve(
